@@ -98,6 +98,49 @@ def run(ctx):
         ctx.case("degree-elevated", (tuple(vs), "elevated"))
         ctx.check(Je == Jq and IntegrateShape.polynomial(SimpleShape(Je), 1, 1) == IntegrateShape.polynomial(SimpleShape(Jq), 1, 1),
                   "degree-elevated description gives a different curve", {"vs": vs})
+    # ---- curved pieces in special position: end points on the same ordinate / abscissa, symmetric arches, lens, arch-shaped hole
+    def arch(x0, x1, y, h, deg):
+        xm = (x0 + x1) / 2
+        if deg == 2:
+            return [(x0, y), (xm, y + h), (x1, y)]
+        return [(x0, y), (x0 + (x1 - x0) / 4, y + h), (x1 - (x1 - x0) / 4, y + h), (x1, y)]
+    special = []
+    for it in range(6 if ctx.quick else 150):
+        x0, w, y = gen.rat(rng, -4, 4), F(rng.randint(1, 8), 2), gen.rat(rng, -4, 4)
+        h = F(rng.choice([-3, -2, -1, 1, 2, 3]), rng.choice([1, 2]))
+        deg = 2 + it % 2
+        up = arch(x0, x0 + w, y, h, deg)
+        if it % 3 == 0:      # arch over a flat base
+            segs = [up, [up[-1], up[0]]] if h > 0 else [[up[0], up[-1]], up[::-1]]
+        elif it % 3 == 1:    # lens of two arches
+            dn = arch(x0, x0 + w, y, -h, deg)
+            segs = [dn, up[::-1]] if h > 0 else [up, dn[::-1]]
+        else:                # vertical arch (end points on the same abscissa) closed by two straight pieces
+            v = [(p[1], p[0]) for p in up]
+            far = (v[0][0] - abs(h) * 2 - 1, (v[0][1] + v[-1][1]) / 2)
+            segs = [v, [v[-1], far], [far, v[0]]]
+        special.append(segs)
+    for segs in special:
+        J = JordanCurve.from_ctrlpoints(segs)
+        S = SimpleShape(J)
+        tok = "S " + core.ejordan(J)
+        maxdeg = max(sg.degree for sg in J.segments)
+        for (a, b) in [(0, 0), (1, 0), (0, 1), (1, 1), (2, 0)]:
+            got = IntegrateShape.polynomial(S, a, b)
+            quad = F(drv.ask(f"quadmoment {tok} {a} {b}"))
+            exact = F(drv.ask(f"moment {tok} {a} {b}"))
+            ctx.case("curved-special-position", (repr(segs), a, b))
+            ctx.check(got == quad, "curved moment differs from the model of the code's quadrature (special position)", {"ctrl": segs, "a": a, "b": b}, quad, got)
+            if (a + b <= 3 and maxdeg == 2) or (a + b == 0):
+                ctx.check(got == exact, "curved moment not exact inside the proved exactness domain (special position)", {"ctrl": segs, "a": a, "b": b}, exact, got)
+        inv = ~S
+        ctx.check(IntegrateShape.area(inv) == -IntegrateShape.area(S), "area(~S) != -area(S) (special position)", {"ctrl": segs})
+    # a square with an arch-shaped hole: holes subtracted
+    hole = JordanCurve.from_ctrlpoints([[(1, 1), (3, 1)], [(3, 1), (2, 3), (1, 1)]])
+    hole.invert()
+    plate = ConnectedShape([shapes.simple([(0, 0), (6, 0), (6, 6), (0, 6)]), SimpleShape(hole)])
+    ctx.case("curved-special-position", "square-with-arch-hole")
+    ctx.check(IntegrateShape.area(plate) == 36 - F(4, 3), "square with an arch-shaped hole: area", {"case": "plate"}, 36 - F(4, 3), IntegrateShape.area(plate))
     ctx.notes.append(f"max measured relative quadrature error outside the exactness domain: {maxerr:.3e}")
     # ---- circles: exact area formula of the quadratic approximation
     from shapepy import Primitive
